@@ -52,6 +52,9 @@ def run(ctx):
         m = [inst(a, b, el, L=4) for a, b, el in pairs]
         m.append(inst("vec8", "vec32", "TC4", L=2, big=[250, 255, 256, 300]))
         m.append(inst("sv3_8", "sv5_16", "TC4", L=2, big=[255, 256]))
+        # a fixed-capacity operand (8-bit size_type) against sizes whose low byte fits its N: the size must not be narrowed
+        m.append(inst("fcv3", "vec32", "TC4", L=2, big=[255, 256, 258]))
+        m.append(inst("sv5_16", "fcv5", "TC4", L=2, big=[256, 260]))
     else:
         names = list(CONF)
         elems = ["TC4", "TR", "NTR"]
@@ -64,6 +67,8 @@ def run(ctx):
         m += [inst(a, b, "TC300", L=5) for a, b in (("sv3_8", "fcv5"), ("sv2", "sv5_16"), ("fcv3", "fcv5"), ("vec32", "sv2"), ("fcv5", "vec8"))]
         for a, b in (("vec8", "vec32"), ("vec32", "vec8"), ("sv3_8", "sv5_16"), ("sv3_8", "vec32"), ("vec8", "sv2"), ("vec8", "vec8")):
             m.append(inst(a, b, "TC4", L=2, big=[250, 254, 255, 256, 300]))
+        for a, b in (("fcv3", "vec32"), ("vec32", "fcv5"), ("fcv5", "sv5_16"), ("sv5_16", "fcv3"), ("fcv3", "fcv5")):
+            m.append(inst(a, b, "TC4", L=2, big=[255, 256, 257, 259, 261, 512, 515]))
     cov = e1.explore(ctx, m, ["C13"], engine="E1s", eng=ENG)
     cov["bound"] = "every reachable pair state (size, capacity, inline/heap incl. adopted small buffers) with sizes <= L, plus sizes around the 8-bit limit; both swap2 directions"
     return ctx.finish("model_checking", cov, ["real headers are the transition function; states keyed by (size, capacity, inline?) of both operands (element values are data independent)",
